@@ -45,6 +45,7 @@ type Exec struct {
 
 	// model state used by intrinsics
 	locks    map[*Value]int
+	syncMaps map[*Value]*[]syncMapEntry
 	ctxCanceled Value
 	foot     *footprint
 	misc     map[string]Value
